@@ -418,10 +418,11 @@ Theorem a_n_block_size_checked : forall fact n, fact_of fact n = true -> fact_pr
   a_n n - a_n (n - 1) = prodl (hyp_radices fact).
 Proof. intros fact n Hf Hp. destruct (fact_ok fact n Hf Hp) as [Hg En]. apply a_n_block_size; assumption. Qed.
 
+(* 57 / 59 / 62 are the guesses the implementation's inv_guess_a returns for z = 254 *)
 Example hyp_roundtrip_nonvacuous :
   fact_of [(2, 2); (3, 1); (5, 1)] 60 = true /\ fact_primes [(2, 2); (3, 1); (5, 1)] = true
   /\ fact_primes [(2, 1); (4, 1)] = false /\ is_prime_b 30029 = true /\ is_prime_b (3613 * 4051) = false
   /\ a_n 60 - a_n 59 = 12 /\ divisors 60 = [1; 2; 3; 4; 5; 6; 10; 12; 15; 20; 30; 60]
-  /\ hyp_pairing2d [(2, 2); (3, 1); (5, 1)] 11 4 = 254 /\ ub_bracket_ok 254 50 58 70 /\ upper_bound_a_n 254 50 58 70 = 60
+  /\ hyp_pairing2d [(2, 2); (3, 1); (5, 1)] 11 4 = 254 /\ ub_bracket_ok 254 57 59 62 /\ upper_bound_a_n 254 57 59 62 = 60
   /\ hyp_projection2d [(2, 2); (3, 1); (5, 1)] 60 254 = (11, 4).
 Proof. vm_compute. repeat split; intros; try reflexivity; discriminate. Qed.
